@@ -1258,6 +1258,20 @@ def color_inherit(prog: Program) -> RuleResult:
 # a node is placed in the species it is mapped to; a label shows the node's own synteny
 
 
+def _walk_same_loop(node: ast.AST):
+    """sub-nodes of a statement, not entering nested loops or functions (their break / continue are their own)"""
+    stack = [node]
+    while stack:
+        cur = stack.pop()
+        yield cur
+        for child in ast.iter_child_nodes(cur):
+            if isinstance(child, (ast.For, ast.While, ast.FunctionDef, ast.Lambda)):
+                if isinstance(child, (ast.For, ast.While)):
+                    stack.extend(x for x in ast.walk(child) if isinstance(x, ast.Return))
+                continue
+            stack.append(child)
+
+
 def placed_in_species(prog: Program) -> RuleResult:
     res = RuleResult(
         "PLACED-IN-SPECIES",
@@ -1301,6 +1315,21 @@ def placed_in_species(prog: Program) -> RuleResult:
         res.ok(construct, f"`{short(first.test)}` -> continue, first statement of the gene loop")
     else:
         res.fail(construct, f"the gene loop does not start by skipping the genes that are not mapped to `{sp}`: a node can be placed in a species it is not mapped to (or in several)", mod, gene_loop)
+    # every species runs the gene loop: nothing in the species loop skips or ends it before the genes were looked at
+    construct = f"{LAYOUT}:_compute_branches/every-species"
+    skips = []
+    for st in sp_loop.body:
+        if st is gene_loop or any(x is gene_loop for x in ast.walk(st)):
+            if st is not gene_loop and isinstance(st, (ast.If, ast.For, ast.While)):
+                raise AnalysisError(f"_compute_branches: the gene loop is nested under `{short(st, 60)}`; whether every species still looks at its genes is not decided")
+            break
+        for x in _walk_same_loop(st):
+            if isinstance(x, (ast.Continue, ast.Break, ast.Return)):
+                skips.append((st, f"`{short(st, 70)}` leaves the iteration of `{sp}` before its genes are looked at"))
+    if skips:
+        res.fail(construct, f"{skips[0][1]}: the nodes mapped to a skipped species get no event node (a transfer can map a node to any species, including one above the root's)", mod, skips[0][0])
+    else:
+        res.ok(construct, f"the gene loop runs for every `{sp}`")
     stores = [
         st for st in ast.walk(gene_loop)
         if isinstance(st, ast.Assign) and isinstance(st.targets[0], ast.Subscript) and isinstance(st.targets[0].value, ast.Subscript)
